@@ -85,7 +85,6 @@ WithPos(e, p) == [e.f EXCEPT !.pos = p]
 M == 2147483
 Mix(h, x)  == ((h * 613) + x + 1) % M
 H(k, slot) == Mix(Mix(Mix(Mix(Seed % M, k), slot), k + 7 * slot), 17)
-Pick(S, h) == SetToSeq(S)[(h % Cardinality(S)) + 1]
 Menu1 == SetToSeq(FullMenu(1))
 Menu2 == SetToSeq(FullMenu(2))
 Menu3 == SetToSeq(FullMenu(3))
